@@ -145,8 +145,9 @@ package req
 //@   ghostset after MayContinue: rlMayCont = result
 //@   assert before ContinueReadBodyStream: !rlMayCont && arg1 == zr && arg2 == maxBodySize
 
-// req.writeBodyStream (C11): the header goes out first and once; a body of known length is written with exactly
-// that length, otherwise chunked framing is announced (-1) before the header, the body is chunked and the trailer
+// req.writeBodyStream (C11): the header goes out first and once, announcing the very length the body is then written
+// with (wsCL: what the header holds - its own value or what SetContentLength last put there); a body of known length is
+// written with exactly that length, otherwise chunked framing is announced (-1) before the header, the body is chunked and the trailer
 // follows only after the body succeeded; the body stream is closed on every path.
 //@ ghost var wsHdr int
 //@ ghost var wsCL int
@@ -161,8 +162,9 @@ package req
 //@   ghostset-at-entry wsCL = -5
 //@   ghostset-at-entry wsBody = 0
 //@   ghostset-at-entry wsClosed = false
+//@   ghostset after RequestHeader.ContentLength: wsCL = result
 //@   ghostset after RequestHeader.SetContentLength: wsCL = arg1
-//@   assert before WriteHeader: wsHdr == 0 && (contentLength >= 0 || wsCL == -1)
+//@   assert before WriteHeader: wsHdr == 0 && ((contentLength >= 0 && wsCL == contentLength) || (contentLength < 0 && wsCL == -1))
 //@   ghostset after WriteHeader: wsHdr = ite(result == nil, 1, -1)
 //@   assert before WriteBodyFixedSize: wsHdr == 1 && contentLength >= 0 && arg2 == contentLength && wsBody == 0
 //@   ghostset after WriteBodyFixedSize: wsBody = 1
